@@ -44,6 +44,14 @@ def cases(tier, seed):
             out.append({"name": "bool.concurrent/%s/%s" % (op, "-".join(assign)), "kind": "conc", "op": op, "assign": list(assign), "cap": cap})
             out.append({"name": "bool.nested/%s/%s" % (op, "-".join(assign)), "kind": "nested", "op": op, "assign": list(assign),
                         "budget": 400 if tier == "quick" else None})
+        # inputs that are library futures sharing a dependency (two f_map views of one future, a third plain input):
+        # an input's cancel() / completion callbacks take that input's own lock
+        vops = ["cancel_v1", "cancel_d", "decide_x", "complete_d", "cancel_out", "fail_d"]
+        for a in vops:
+            for b in vops:
+                if a != b:
+                    out.append({"name": "bool.views/%s/%s|%s" % (op, a, b), "kind": "views", "op": op, "a": a, "b": b,
+                                "cap": 30 if tier == "quick" else None})
     return out
 
 
@@ -361,8 +369,88 @@ class NestScenario(ConcScenario):
             res.key("nested", self.case["op"], "-".join(assign), info.get("site"), info.get("site2"))
 
 
+class ViewScenario(object):
+    """out = f_or/f_and(f_map(d), f_map(d), x): thread A acts on one input (cancels a view / the shared source,
+    completes it), thread B makes x decide the output, which cancels the losers.  Every call returns and the
+    output is decided."""
+
+    def __init__(self, case):
+        self.case = case
+
+    def setup(self):
+        F = instr.ME.futures
+        ctx = Ctx()
+        ctx.d = SpyFuture("d")
+        ctx.x = SpyFuture("x")
+        ctx.v1 = F.f_map(ctx.d, lambda v: v)
+        ctx.v2 = F.f_map(ctx.d, lambda v: v)
+        ctx.out = mk(self.case["op"], [ctx.v1, ctx.v2, ctx.x])
+        ctx.rets = {}
+        return ctx
+
+    def act(self, ctx, what):
+        op = self.case["op"]
+        try:
+            if what == "cancel_v1":
+                ctx.rets[what] = ctx.v1.cancel()
+            elif what == "cancel_d":
+                ctx.rets[what] = ctx.d.cancel()
+            elif what == "cancel_out":
+                ctx.rets[what] = ctx.out.cancel()
+            elif what == "decide_x":
+                ctx.x.set_result("decisive" if op == "or" else 0)
+            elif what == "complete_d":
+                ctx.d.set_result(0 if op == "or" else "undecided")
+            elif what == "fail_d":
+                ctx.d.set_exception(UserErrorA("d"))
+        except cf.InvalidStateError:
+            pass  # the future was already finished / cancelled by the other side
+
+    def victim_role(self, ctx):
+        return "V"
+
+    def start_victim(self, ctx):
+        return ctx.actor("V", self.act, ctx, self.case["a"]).go()
+
+    def intervene(self, ctx):
+        self.act(ctx, self.case["b"])
+
+    def finish(self, ctx):
+        for f, v in ((ctx.d, 0 if self.case["op"] == "or" else "undecided"), (ctx.x, 0 if self.case["op"] == "or" else "last")):
+            if not f.done():
+                try:
+                    f.set_result(v)
+                except cf.InvalidStateError:
+                    pass
+
+    def oracle(self, ctx, res, info):
+        label = "%s placement=%s" % (self.case["name"], info.get("site"))
+        for a in (info.get("victim"), info.get("iact")):
+            if a is not None and a.error is not None and not isinstance(a.error, instr.DeadlockBroken):
+                res.violation("unexpected-exception/%s" % type(a.error).__name__, "%s: %r" % (label, a.error), tb=getattr(a, "tb", None))
+        o = outcome(ctx.out)
+        if o[0] == "pending":
+            res.violation("output-pending/views", "%s: every input is finished (%s) but the output is pending"
+                          % (label, [outcome_repr(outcome(f)) for f in (ctx.v1, ctx.v2, ctx.x)]))
+        decided_by_x = self.case["a"] == "decide_x" or self.case["b"] == "decide_x"
+        if decided_by_x and o[0] == "value" and o[1] in ("decisive", 0) and ctx.x.done() and not ctx.x.cancelled():
+            # x decided: the views (still pending then, or cancelled meanwhile) must have been asked to cancel -> finished now
+            for name, v in (("v1", ctx.v1), ("v2", ctx.v2)):
+                if not v.done():
+                    res.violation("loser-not-cancelled/views", "%s: output decided by x but %s is still pending" % (label, name))
+        if info.get("hit"):
+            res.key("views", self.case["op"], self.case["a"], self.case["b"], info.get("site"))
+        res.count("view_outputs_judged")
+        res.sample({"op": self.case["op"], "thread_A": self.case["a"], "thread_B": self.case["b"], "placement": info.get("site"),
+                    "output": outcome_repr(o), "inputs": [outcome_repr(outcome(f)) for f in (ctx.v1, ctx.v2, ctx.x)]}, limit=1)
+
+
 def run_case(case, res):
     k = case["kind"]
+    if k == "views":
+        rng = random.Random("c14v/%s/%s" % (case["seed"], case["name"]))
+        Sweep(ViewScenario(case), res, "rt", case["name"]).run(case["cap"], rng, per_site=2)
+        return
     if k == "nested":
         rng = random.Random("c14n/%s/%s" % (case["seed"], case["name"]))
         SweepNested(NestScenario(case), res, "rt", case["name"]).run(None, None, rng, per_site=2, budget=case["budget"])
